@@ -142,6 +142,7 @@ Inductive command :=
 | CSearch                          (* SEARCH ALL *)
 | CSearchBad                       (* SEARCH CHARSET X-UNKNOWN ALL : refused with NO; only the trailing flush runs *)
 | CNoop
+| CStatus                          (* STATUS of any mailbox while a mailbox is selected: handleStatus flushes the selected one *)
 | CCheck
 | CIdle
 | CDone.
@@ -389,6 +390,7 @@ Definition do_cmd (w : world) (i : nat) (c : command) : world * list resp * outc
               | None => fail
               end
           | CNoop => ret (finish w i [] false (own_permits "handleNoop"))
+          | CStatus => ret (finish w i [] false (own_permits "handleStatus"))
           | CCheck => ret (finish w i [] false (sel_permits "Check"))
           | CIdle =>
               match sess_flush true s with
